@@ -300,6 +300,17 @@ class Scope:
                 for v in vals:
                     out += [expr] if v is None else self.sources(v, _seen | {expr.id}, _depth + 1)
                 return out
+        if isinstance(expr, (ast.Attribute, ast.Subscript)) and isinstance(expr.ctx, ast.Load) and _depth <= _DEPTH \
+                and any(isinstance(x, ast.Name) and len(self.defs.all.get(x.id, [])) > 1 and x.id not in self.keep for x in ast.walk(self.expand(expr.value))):
+            # a field / position of a record (or tuple) that is built on several paths: one alternative per path
+            out = []
+            for b in self.sources(expr.value, _seen, _depth + 1):
+                e = copy.copy(expr)
+                e.value = b
+                e = self.expand(e)
+                unprojected = isinstance(e, type(expr)) and unparse(e.value) == unparse(self.expand(b))
+                out += [e] if unprojected else self.sources(e, _seen, _depth + 1)
+            return out
         return [self.expand(expr)]
 
 
